@@ -261,6 +261,26 @@ def _forward_rule(chk):
     chk.judge(all(passed.get(k) == v for k, v in want.items()), 'C25.expect', calls[0], 'on_down(host, is_host_addition, expect_host_to_be_down)',
               'on_down is called with %s: the caller\'s expect_host_to_be_down is dropped, so a newly discovered host whose pool cannot be opened (is_up None) is marked down '
               'without a reconnector and never comes back' % passed)
+    # a pool that cannot be opened for a host that is not up yet (new host, initial connect): the failure is reported with expect_host_to_be_down=True so that
+    # on_down does not take the host for "already down, nothing to do" and starts its reconnector
+    arp = cl.func('Session.add_or_renew_pool')
+    sig = [c_ for c_ in body_walk(arp, nested=True) if isinstance(c_, ast.Call) and isinstance(c_.func, ast.Attribute) and c_.func.attr == 'signal_connection_failure']
+    from ..core import parent as _par25
+    generic = []
+    for c_ in sig:
+        p_ = _par25(c_)
+        while p_ is not None and not isinstance(p_, ast.ExceptHandler):
+            p_ = _par25(p_)
+        if p_ is not None and p_.type is not None and src(p_.type) == 'Exception':
+            generic.append(c_)
+    if len(generic) != 1:
+        raise AnalysisError('Session.add_or_renew_pool: signal_connection_failure in the `except Exception` arm not found (%d)' % len(generic))
+    kw25 = dict((k.arg, src(k.value)) for k in generic[0].keywords if k.arg)
+    pos25 = [src(a) for a in generic[0].args]
+    chk.judge(kw25.get('expect_host_to_be_down') == 'True' or (len(pos25) >= 4 and pos25[3] == 'True'), 'C25.expect', generic[0],
+              'add_or_renew_pool: a pool that cannot be opened is reported with expect_host_to_be_down=True',
+              'the failure of a new host\'s pool is reported without expect_host_to_be_down: on_down sees a host that was never up, returns early, and the host is left down '
+              'without a reconnector - it never comes back')
     g, fl = _sem25.flow_of(od)
     early = [n for n in g.stmt_nodes() if n.kind == 'return' and any(fa.knows('was_up') is False for fa, _c in fl.at(n))]
     ok = bool(early) and all(all((fa.knows('was_up') is False and fa.knows('expect_host_to_be_down') is False) or fa.knows('host.is_currently_reconnecting()') is True or
